@@ -1261,6 +1261,7 @@ class Engine:
         for k in EFFECTS:
             by_name.setdefault(k.split(":")[1].split(".")[-1], set()).update(GHOSTS)
         by_name.setdefault("urandom", set()).add("rng_n")
+        by_name.setdefault("sample", set()).add("sample0")
         inl = {}
         for k in INLINE:
             inl.setdefault(k.split(":")[1].split(".")[-1], []).append(k)
@@ -1571,6 +1572,8 @@ class Engine:
                 obj = self.eval(target.value, fr)
                 if isinstance(obj, Ref) and self.cell(obj)[0] == "obj":
                     fty = self.cell(obj)[1].fields.get(self.mangle(target.attr, fr))
+            elif isinstance(target, ast.Name) and fr.contract is not None:
+                fty = fr.contract.locals.get(target.id)     # a local whose type the contract declares
             if not (isinstance(fty, TList) and isinstance(fty.elem, TOpt)):
                 raise Unsupported("[None] * n stored where no list-of-optional type is declared")
             sv = self.fresh("nones", fty)
